@@ -211,14 +211,12 @@ def _own_walk(node):
                 stack.append(c)
 
 
-WALL_VELOCITY_NAMES = {"wallVelocity", "vw", "vwTry", "wallVelocityLTE", "vmin", "vmax", "wallVelocityMin", "wallVelocityMax", "vw1", "vw2", "vw3",
-                       "wallVelocityStart", "wallVelocityMid"}
+PLASMA_VELOCITY_NAMES = {"velocityMid", "vp", "vm", "vpcent", "velocityProfile", "velocityAtCenter", "vPlasma", "velocity", "velocityMidPoint"}
 
 
 def jouguet_compared_with_wall_velocity(chk: Check, rule: str) -> None:
-    """vJ is a threshold for the WALL velocity.  In the wall solver every comparison with the hydrodynamics' vJ must have a wall velocity on the
-    other side (a parameter / local in the wall-velocity role, or min/max/abs/arithmetics with small constants of such), never a plasma velocity
-    such as the mid-wall fluid velocity (v+ + v-)/2: walls just above vJ have plasma velocities below it."""
+    """vJ is a threshold for the WALL velocity.  In the wall solver no comparison with the hydrodynamics' vJ may have a plasma velocity on the other
+    side (the mid-wall fluid velocity (v+ + v-)/2, v+, v-, the velocity profile): walls just above vJ have plasma velocities below it."""
     S = chk.src
     ci = S.cls("equationOfMotion:EOM")
     count = 0
@@ -234,14 +232,13 @@ def jouguet_compared_with_wall_velocity(chk: Check, rule: str) -> None:
                 count += 1
                 bad = []
                 for o in others:
-                    role_ok = False
-                    for r in (o, cx.resolve(o, maxdepth=1)):       # as written (a name in the wall-velocity role), or one temporary looked through
-                        names = {x.id for x in ast.walk(r) if isinstance(x, ast.Name)} - {"np", "abs", "min", "max", "float", "self"}
-                        attrs = {x.attr for x in ast.walk(r) if isinstance(x, ast.Attribute)}
-                        if (not names and not attrs) or (names <= WALL_VELOCITY_NAMES and attrs <= {"wallVelocity", "vJ", "hydrodynamics", "vMin", "vBracketLow"}):
-                            role_ok = True
-                    if not role_ok:
-                        bad.append(n(o))
+                    # plasma velocities are recognised by the public parameter / attribute names they travel under (velocityMid, vp, vm, the
+                    # velocity profile); as written, or with temporaries looked through
+                    for r in (o, cx.resolve(o, maxdepth=2)):
+                        names = {x.id for x in ast.walk(r) if isinstance(x, ast.Name)} | {x.attr for x in ast.walk(r) if isinstance(x, ast.Attribute)}
+                        if names & PLASMA_VELOCITY_NAMES:
+                            bad.append(n(o))
+                            break
                 chk.touch(sc.name)
                 chk.ob(rule, sc.where(c), f"{sc.qual}: `{n(c)[:70]}` compares the Jouguet velocity with a wall velocity", not bad,
                        f"other side: {bad}", key=f"vJ-vs-wall-velocity|{sc.qual}|{n(c)[:50]}")
